@@ -135,7 +135,7 @@ def generate_behaviours(binary, outdir, tier, seed):
     return files, {"tlc_generated_behaviours": generated, "gen_wall_s": round(time.time() - t0, 1)}
 
 
-MC_PLAN = {"quick": (6, 600), "thorough": (8, 2400)}   # (MaxEvents, timeout seconds)
+MC_PLAN = {"quick": (6, 600), "thorough": (7, 1500)}   # (MaxEvents, timeout seconds)
 MC_CFG = {"accounts": 8, "dids": 2, "validators": 1, "balance": 100000}
 
 
